@@ -559,8 +559,10 @@ func (g *gen) evidenceInput(in *n3Input) {
 		case 1:
 			pb.VoteB = nil
 		case 2:
-			pb.VoteA.Height = g.height()
-			pb.VoteB.Height = pb.VoteA.Height
+			if pb.VoteA != nil && pb.VoteB != nil {
+				pb.VoteA.Height = g.height()
+				pb.VoteB.Height = pb.VoteA.Height
+			}
 		case 3:
 			pb.TotalVotingPower = pick64(g.r, 0, -1, math.MaxInt64, 1)
 		case 4:
